@@ -199,6 +199,96 @@ func (e *Engine) script(formula string) string {
 	return sb.String()
 }
 
+var basicRanges = map[string][2]string{
+	"uint8": {"0", "255"}, "uint16": {"0", "65535"}, "uint32": {"0", "4294967295"}, "uint64": {"0", "18446744073709551615"},
+	"int8": {"(- 128)", "127"}, "int16": {"(- 32768)", "32767"}, "int32": {"(- 2147483648)", "2147483647"},
+	"int": {"(- 9223372036854775808)", "9223372036854775807"}, "int64": {"(- 9223372036854775808)", "9223372036854775807"},
+	"uint": {"0", "18446744073709551615"},
+}
+
+// typingAxioms returns range axioms for the heap constants of basic integer element type that
+// the script declares (H0!A!uint8!, Hhavoc!A!uint8!..., i.e. whole-heap constants of element
+// arrays): every cell holds a value of the element type.
+// basicHeapRange: the value range of the cells of heap component `name` when it is an array of
+// a basic integer type ("A!uint8!").
+func basicHeapRange(name string) ([2]string, bool) {
+	bare := strings.Trim(name, "|")
+	i := strings.Index(bare, "A!")
+	if i < 0 {
+		return [2]string{}, false
+	}
+	rest := bare[i+2:]
+	j := strings.Index(rest, "!")
+	if j < 0 {
+		return [2]string{}, false
+	}
+	tn, path := rest[:j], rest[j+1:]
+	if k := strings.Index(path, "!"); k >= 0 {
+		path = path[:k]
+	}
+	rg, ok := basicRanges[tn]
+	if !ok || path != "" {
+		return [2]string{}, false
+	}
+	return rg, true
+}
+
+// typeObj records the typing axiom of a fresh object-level array (contents of one heap object).
+func (e *Engine) typeObj(fresh Term, heapName string) {
+	rg, ok := basicHeapRange(heapName)
+	if !ok || fresh.Sort != SArr {
+		return
+	}
+	e.sym.mu.Lock()
+	defer e.sym.mu.Unlock()
+	if e.sym.typing == nil {
+		e.sym.typing = map[string]string{}
+	}
+	e.sym.typing[fresh.S] = fmt.Sprintf("(assert (forall ((ti Int)) (! (and (<= %s (select %s ti)) (<= (select %s ti) %s)) :pattern ((select %s ti)))))\n", rg[0], fresh.S, fresh.S, rg[1], fresh.S)
+}
+
+func (e *Engine) typingAxioms(script string) string {
+	var sb strings.Builder
+	toks := map[string]bool{}
+	if len(e.sym.typing) > 0 {
+		tokensOf(script, toks)
+		for _, n := range e.sym.order {
+			if ax, ok := e.sym.typing[n]; ok && toks[n] {
+				sb.WriteString(ax)
+			}
+		}
+	}
+	for _, line := range strings.Split(script, "\n") {
+		if !strings.HasPrefix(line, "(declare-const ") {
+			continue
+		}
+		f := splitTop(line[1 : len(line)-1])
+		if len(f) != 3 || f[2] != "(Array Int (Array Int Int))" {
+			continue
+		}
+		bare := strings.Trim(f[1], "|")
+		i := strings.Index(bare, "A!")
+		if i < 0 {
+			continue
+		}
+		rest := bare[i+2:]
+		j := strings.Index(rest, "!")
+		if j < 0 {
+			continue
+		}
+		tn, path := rest[:j], rest[j+1:]
+		if k := strings.Index(path, "!"); k >= 0 {
+			path = path[:k]
+		}
+		rg, ok := basicRanges[tn]
+		if !ok || path != "" {
+			continue
+		}
+		sb.WriteString(fmt.Sprintf("(assert (forall ((tr Int) (ti Int)) (! (and (<= %s (select (select %s tr) ti)) (<= (select (select %s tr) ti) %s)) :pattern ((select (select %s tr) ti)))))\n", rg[0], f[1], f[1], rg[1], f[1]))
+	}
+	return sb.String()
+}
+
 // ---------------------------------------------------------------------------------------------
 // VC extraction
 
@@ -324,6 +414,7 @@ func (e *Engine) VerifyFunction(fn *ssa.Function, opts VerifyOpts) (res *FuncRes
 	e.paths = 0
 	e.usedSpecs = nil
 	e.curRoot = fn
+	e.bits = nil
 	e.fuel = 0
 	if ct := e.cs.Funcs[fullKey(fn)]; ct != nil && ct.Fuel > 0 {
 		e.fuel = ct.Fuel
@@ -445,9 +536,25 @@ func (e *Engine) VerifyFunction(fn *ssa.Function, opts VerifyOpts) (res *FuncRes
 			continue
 		}
 		wg.Add(1)
+		typed := e.typingAxioms(script)
 		go func(ob *Obligation, script string) {
 			defer wg.Done()
 			r := Solve(script, dir, sanitize(ob.Name), opts.TimeoutS)
+			if r.Status != "unsat" && typed != "" {
+				// second phase: with the typing axioms of the heap (every byte cell is in 0..255, ...).
+				// They are left out of the first phase because quantified axioms turn satisfiable
+				// queries (counterexamples) into "unknown".
+				i := strings.LastIndex(script, "(assert ")
+				script2 := script[:i] + typed + script[i:]
+				r2 := Solve(script2, dir, sanitize(ob.Name)+".typed", opts.TimeoutS)
+				if r2.Status == "unsat" {
+					r2.Seconds += r.Seconds
+					r = r2
+				} else if r.Status == "sat" {
+					// the model of phase 1 may violate the typing axioms: only a replay can confirm it
+					r.Outputs["note"] = "model found without the heap typing axioms; with them: " + r2.Status
+				}
+			}
 			ob.Seconds = r.Seconds
 			ob.Solver = r.Solver
 			ob.Outputs = r.Outputs
@@ -564,7 +671,11 @@ func (e *Engine) atReturn(st *State, fr *Frame, results []Value) {
 // at the locations named in the modifies clause (objects allocated by the function are free).
 func (e *Engine) frameCheck(st *State, fr *Frame, vars map[string]specVal) {
 	ct := fr.contract
-	if ct == nil || ct.ModAll || ct.NoFrame {
+	if ct == nil || ct.ModAll || ct.NoFrame || ct.Inline {
+		return
+	}
+	if len(ct.Ensures) == 0 && len(ct.Modifies) == 0 && !ct.Pure {
+		// a contract that only carries preconditions / call-site assertions promises no frame
 		return
 	}
 	// evaluate the modifies locations in the entry state
